@@ -35,6 +35,15 @@ class CallMixin(object):
 
     def get_attr(self, base, attr, state, frame, node):
         k = base[0]
+        if base in self.__dict__.get("path_typed", ()) and attr in (
+                "name", "parent", "stem", "suffix"):
+            if attr == "name":
+                return ("call", "os.path.basename", (base,), ())
+            if attr == "parent":
+                v = ("call", "os.path.dirname", (base,), ())
+                self.path_typed.add(v)
+                return v
+            return ("call", "pathlib." + attr, (base,), ())
         if k == "obj":
             cls, tag = base[1], base[2]
             role = self.names.cfg.get((cls, attr))
@@ -527,6 +536,14 @@ class CallMixin(object):
         return [(state, ("call", name, tuple(args), tuple(sorted(kwargs.items()))))]
 
     def call_external(self, name, args, kwargs, state, frame, node):
+        if name in ("pathlib.Path", "pathlib.PurePath", "pathlib.PosixPath") and \
+                len(args) == 1 and not kwargs:
+            # Path(x) denotes the same file as x: the path object is modelled by
+            # the path text, remembered as path-typed (flow-insensitively)
+            self.__dict__.setdefault("path_typed", set()).add(args[0])
+            return [(state, args[0])]
+        if name == "os.fspath" and len(args) == 1 and not kwargs:
+            return [(state, args[0])]
         e = self.ev(state, "ext", frame, node, name=name, args=tuple(args),
                     kwargs=tuple(sorted(kwargs.items())))
         if name == "sqlite3.connect":
